@@ -24,17 +24,36 @@ def _is_digit(ch: str) -> bool:
     return "0" <= ch <= "9"
 
 
-def _case_codes(ch: str) -> Tuple[int, ...]:
-    """Code points of ch and of its lower/upper case forms.
+def _canonicalize(ch: str) -> str:
+    """ECMAScript Canonicalize (no unicode flag): the upper case form of ch,
+    unless that is not a single character or turns a non-ASCII character
+    into an ASCII one."""
+    upper = ch.upper()
+    if len(upper) != 1:
+        return ch
+    if ord(ch) >= 128 and ord(upper) < 128:
+        return ch
+    return upper
 
-    A case form that is not a single character (the lower case of U+0130, the
-    upper case of U+00DF) does not take part in case-insensitive matching.
-    """
-    codes = [ord(ch)]
-    for form in (ch.lower(), ch.upper()):
-        if len(form) == 1:
-            codes.append(ord(form))
-    return tuple(codes)
+
+def _canonical_classes() -> dict:
+    """canonical form -> code points of the other characters that share it."""
+    classes: dict = {}
+    for cp in range(0x10000):
+        ch = chr(cp)
+        canonical = _canonicalize(ch)
+        if canonical != ch:
+            classes.setdefault(canonical, []).append(cp)
+    return {k: tuple(v) for k, v in classes.items()}
+
+
+_CANONICAL_CLASSES = _canonical_classes()
+
+
+def _case_codes(ch: str) -> Tuple[int, ...]:
+    """Code points of the characters that match ch when case is ignored."""
+    canonical = _canonicalize(ch)
+    return (ord(canonical),) + _CANONICAL_CLASSES.get(canonical, ())
 
 
 def _is_word(ch: str) -> bool:
@@ -239,7 +258,7 @@ class RegexVM:
                     else:
                         ch = string[sp]
                         if self.ignorecase:
-                            ok = char_code in _case_codes(ch)
+                            ok = _canonicalize(ch) == _canonicalize(chr(char_code))
                         else:
                             ok = ord(ch) == char_code
                         sp += 1
@@ -367,7 +386,10 @@ class RegexVM:
                             captured = string[start:end]
                             candidate = string[sp : sp + len(captured)]
                             if opcode == Op.BACKREF_I:
-                                ok = candidate.lower() == captured.lower()
+                                ok = len(candidate) == len(captured) and all(
+                                    _canonicalize(a) == _canonicalize(b)
+                                    for a, b in zip(candidate, captured)
+                                )
                             else:
                                 ok = candidate == captured
                             sp += len(captured)
